@@ -121,7 +121,8 @@ func declNameAt(tr *Translation, pos token.Pos) string {
 							t = st.X
 						}
 						if id, ok := t.(*ast.Ident); ok {
-							return id.Name + "__" + d.Name.Name
+							// calls name a method after the type behind an alias receiver
+							return aliasTarget(tr, id.Name) + "__" + d.Name.Name
 						}
 					}
 					return d.Name.Name
@@ -142,6 +143,31 @@ func declNameAt(tr *Translation, pos token.Pos) string {
 		}
 	}
 	return ""
+}
+
+// aliasTarget follows `type A = T` declarations of the package (T an identifier).
+func aliasTarget(tr *Translation, name string) string {
+	for hops := 0; hops < 8; hops++ {
+		next := ""
+		for _, f := range tr.Files {
+			for _, d := range f.Decls {
+				if gd, ok := d.(*ast.GenDecl); ok {
+					for _, sp := range gd.Specs {
+						if ts, ok := sp.(*ast.TypeSpec); ok && ts.Name.Name == name && ts.Assign.IsValid() {
+							if id, ok := ts.Type.(*ast.Ident); ok {
+								next = id.Name
+							}
+						}
+					}
+				}
+			}
+		}
+		if next == "" {
+			return name
+		}
+		name = next
+	}
+	return name
 }
 
 // ValidateOpts is Validate with options.
@@ -222,8 +248,28 @@ func ValidateOpts(src string, runner *GoRunner, opts Options) *Report {
 		return rep
 	}
 	prog := glang.Load("main", map[string]*vread.File{"main": vf})
+	// Coq names shared by several Go declarations (a method bar of Foo and a function Foo__bar;
+	// blank declarations): when one of them is rejected the name may still be defined — by the
+	// other one — and an entry that reaches the rejected one silently runs the other
+	shared := map[string]int{}
+	for _, f := range tr.Files {
+		for _, d := range f.Decls {
+			for _, n := range declNamesAt(tr, d.Pos()) {
+				shared[n]++
+			}
+		}
+	}
+	clash := map[string]bool{}
+	for name := range rep.Rejected {
+		if shared[name] > 1 {
+			clash[name] = true
+		}
+	}
 	// a rejected declaration must not appear in the output at all
 	for name := range rep.Rejected {
+		if clash[name] {
+			continue
+		}
 		if vf.Def(name) != nil {
 			rep.Violations = append(rep.Violations, fmt.Sprintf("declaration %s was rejected with an error but is also emitted", name))
 		}
@@ -289,6 +335,9 @@ func ValidateOpts(src string, runner *GoRunner, opts Options) *Report {
 					dangling = true
 				}
 			}
+			if len(clash) > 0 && reaches(vf, e.Name, clash) {
+				dangling = true
+			}
 			if dangling {
 				er.Outcome = "reaches-rejected"
 			} else if er.Outcome == "unknown-primitive" {
@@ -305,6 +354,35 @@ func ValidateOpts(src string, runner *GoRunner, opts Options) *Report {
 		rep.Entries = append(rep.Entries, er)
 	}
 	return rep
+}
+
+// reaches reports whether the definition `from` mentions, directly or through other definitions
+// of the file, one of the names.
+func reaches(vf *vread.File, from string, names map[string]bool) bool {
+	seen := map[string]bool{}
+	var visit func(n string) bool
+	visit = func(n string) bool {
+		if names[n] {
+			return true
+		}
+		if seen[n] {
+			return false
+		}
+		seen[n] = true
+		d := vf.Def(n)
+		if d == nil {
+			return false
+		}
+		found := false
+		vread.Walk(d.Body, func(e vread.Expr) bool {
+			if g, ok := e.(vread.Gid); ok && !found && visit(g.Name) {
+				found = true
+			}
+			return !found
+		})
+		return found
+	}
+	return visit(from)
 }
 
 func firstLines(s string, n int) string {
